@@ -39,6 +39,10 @@ type C10Case struct {
 	// ErrAt: before delivering chunk i (index into the chunk list) the connection reports a
 	// transient read timeout once; the caller retries
 	ErrAt []int `json:"err_at,omitempty"`
+	// Buf > 0: the caller's buffer has this many bytes (the server reads with a buffer of its
+	// InboundMTU, 1600 by default); a frame that does not fit must still be consumed whole, its
+	// head must be what is copied, and the returned length must show that it did not fit
+	Buf int `json:"buf,omitempty"`
 	// bind part
 	Reply    string `json:"reply,omitempty"` // success | error | indication | notstun | badattr
 	Trailing int    `json:"trailing,omitempty"`
@@ -189,6 +193,9 @@ func runFrames(c *C10Case) (string, string) { //nolint:cyclop
 	}
 	sc := proto.NewSTUNConn(conn)
 	buf := make([]byte, c10Buf)
+	if c.Buf > 0 {
+		buf = make([]byte, c.Buf)
+	}
 	consumed := 0
 	for i := range want {
 		conn.callsSince = conn.callsSince[:0]
@@ -204,7 +211,17 @@ func runFrames(c *C10Case) (string, string) { //nolint:cyclop
 		if n < 1 {
 			return "no-progress", fmt.Sprintf("ReadFrom #%d returned n=%d with nil error (frame %s len %d)", i, n, c.Frames[i].Kind, c.Frames[i].Len)
 		}
-		if !bytes.Equal(buf[:n], want[i]) {
+		if len(want[i]) > len(buf) {
+			// does not fit: the caller sees that (n >= len(buf)) and the head of the frame; the frame
+			// is gone from the stream (the following frames are checked as usual)
+			if n < len(buf) {
+				return "oversize-frame-not-signalled", fmt.Sprintf("ReadFrom #%d into a %d-byte buffer returned n=%d for a %d-byte frame: the caller cannot tell that the frame did not fit", i, len(buf), n, len(want[i]))
+			}
+			if !bytes.Equal(buf, want[i][:len(buf)]) {
+				return "frame-mismatch", fmt.Sprintf("ReadFrom #%d into a %d-byte buffer copied %x…, the frame begins %x…", i, len(buf), buf[:min(len(buf), 12)], want[i][:12])
+			}
+			n = len(want[i])
+		} else if !bytes.Equal(buf[:min(n, len(buf))], want[i]) || n != len(want[i]) {
 			return "frame-mismatch", fmt.Sprintf("ReadFrom #%d returned %d bytes %x…, expected frame of %d bytes %x…", i, n, buf[:min(n, 12)], len(want[i]), want[i][:min(len(want[i]), 12)])
 		}
 		if addr == nil {
@@ -455,6 +472,9 @@ func genC10(rt *rapid.T) *C10Case {
 		total += tl
 	}
 	c.Cuts = genCuts(rt, total)
+	if rapid.IntRange(0, 3).Draw(rt, "shortBuffer") == 0 {
+		c.Buf = rapid.SampledFrom([]int{24, 64, 100, 512, 1500, 1600, 1600, 4096}).Draw(rt, "buf")
+	}
 	if len(c.Cuts) > 0 && len(c.Cuts) < 64 && rapid.IntRange(0, 3).Draw(rt, "readErrors") == 0 {
 		for k := rapid.IntRange(1, 3).Draw(rt, "nerr"); k > 0; k-- {
 			c.ErrAt = append(c.ErrAt, rapid.IntRange(0, len(c.Cuts)).Draw(rt, "errAt"))
@@ -517,7 +537,7 @@ func smallSeqs() [][]Frame {
 func TestC10(t *testing.T) { //nolint:cyclop,gocyclo
 	r := vkit.Start(t, "C10")
 	defer r.Finish()
-	r.Assume("callers hand STUNConn.ReadFrom a buffer of at least 65536+20 bytes (the server uses its inbound MTU; frames larger than the caller's buffer are outside this property)")
+	r.Assume("callers hand STUNConn.ReadFrom a buffer of at least 24 bytes; a frame larger than the caller's buffer is only required to be consumed whole, to hand over its head and to be recognisable as oversize (n >= len(buffer)), which is what the server's read loop relies on")
 
 	if r.Replay != "" {
 		var c C10Case
